@@ -270,6 +270,8 @@ def explain(rep, tier, seed):
     hints += shapes.sample_shapes(2, 60 if tier == 'quick' else 500, seed + 7)
     hints += ['tuple[Iterable[int], int]', 'tuple[Iterator[int], str]', 'list[Iterable[int]]', 'tuple[Collection[int], int]', 'dict[str, Iterable[int]]', 'Union[Iterable[int], str]']
     confs = ['default', 'custom'] if tier == 'quick' else ['default', 'custom', 'mixed', 'nonrandom', 'On']
+    # a validator that is only evaluated because an earlier operand short-circuits on the fast path
+    hints += ['Annotated[list, AND(IS(nonempty), IS(firstpos))]', 'Annotated[list, AND(IS(nonempty), OR(IS(firstpos), ISEQ(5)))]', 'Annotated[list, AND(IS(nonempty), NOT(IS(firstpos)))]']
     hints += ['(int, list[int])', '(L0, str)', 'NoReturn' if False else 'tuple[()]']      # old-style tuple unions as root hints
     T = [(h, c) for h in hints for c in confs] + [(h, 'mixed') for h in hints[:40]] + [(h, 'culpritwarn') for h in hints[:12] + ['(int, list[int])']] + [(h, 'On') for h in hints[::3]] + [(h, 'nonrandom') for h in hints[::5]]
     T = list(dict.fromkeys(T))
